@@ -259,8 +259,26 @@ CLAIMS['C16'] = dict(
     technique='Verus whole-map contracts on the extracted op cache, Environment cache accessors and Checker::resolve_import, lemmas for commutation / idempotence',
 )
 
+CLAIMS['C17'] = dict(
+    text=('PARTIAL, narrow (position plumbing of RUN-TIME faults in the opcode VM; nothing about syntax errors or statement spans): every error '
+          'raised by a VM handler or runtime hook under contract (arithmetic, comparison, boolean and jump ops, select, fail, name lookup, binding, '
+          'selector, tuple / list / copy, cast, call, module call, regex, range, include, map / filter / reduce) carries the position of the failing '
+          'op or of one of that op\'s operands - never none, never a default 0:0, never a position from inside a callee; the real interpreter loop '
+          'VM::run hands each handler the position stored with its op and returns handler errors unchanged (same position, same call stack); a '
+          'fault inside a called function, a module body or out expression, or a map / filter / reduce callback keeps its own position and gets '
+          'the call site appended as VIA, and Display prints the primary position first, then the VIA lines in call order; for binary operators, '
+          'not, casts, fail, calls, copies, names and literals the translator pairs the op that can fail with its AST node\'s position. NOT '
+          'covered: syntax-error positions (parser combinators), that a node position lies inside the statement\'s source span (the AST carries no '
+          'end positions), type-checker diagnostics, invariance under added statements, the import / out / convert / trace hooks, ~100 other '
+          'translator push sites.'),
+    design_ref='DESIGN.md §5 C17',
+    note=('Trusted: Verus/Z3; extraction rules and 96 substs listed in evidence (`?` with a foreign error type rewritten to its From::from desugaring); '
+          'nested VM::run opaque in err_pos (its two error clauses are proved in err_pos_run, "Ok leaves a value on the stack" is the translator '
+          'invariant); env_ok() excludes current_dir()/artifact I/O failures; regex / File / importer stubs; Value::type_name, Value::eq models.'),
+    technique='Verus contracts on the extracted opcode Error type, decorate macros, VM handlers, runtime hooks, VM::run and translator arms: error position = op / operand position',
+)
+
 NOT_APPLICABLE = {
     'C07': 'relational completeness between the whole type checker and the whole evaluator; no per-function contract within reach of Verus/Kani states "accepts what runs" (DESIGN §5 C07)',
-    'C17': 'diagnostic positions are plumbed through ~120 translator push sites and parser-combinator error contexts; needs end positions the AST does not carry and relates two runs (DESIGN §5 C17)',
     'C19': 'the helpers are UCG programs (std/*.ucg), not Rust; neither verifier reads UCG (DESIGN §5 C19)',
 }
